@@ -22,7 +22,7 @@ func (c16) NumCases(tier string) int {
 	if tier == "thorough" {
 		return 60_000
 	}
-	return 420
+	return 320
 }
 
 func (c16) Describe() CheckInfo {
@@ -38,7 +38,7 @@ func (c16) Describe() CheckInfo {
 		},
 		RealCode:       []string{"gopatch main()/runMain/mainCmd.Run, findFiles/findGoFiles, loader, internal/*, all dependencies"},
 		Stubs:          []string{"package os (simulated filesystem with byte-granular write faults and kill), path/filepath walk, io/ioutil"},
-		RequiredProbes: []string{"write-fault-after-truncate", "kill-between-open-and-first-byte", "kill-mid-write", "write-fault-mid-write", "open-fail-target", "open-fail-patch", "read-fail", "walk-fail", "unparseable-target", "misfit-target", "missing-path", "multi-file-fault-on-non-first", "fault-pair", "sticky-write-fault"},
+		RequiredProbes: []string{"write-fault-after-truncate", "kill-between-open-and-first-byte", "kill-mid-write", "write-fault-mid-write", "open-fail-target", "open-fail-patch", "read-fail", "walk-fail", "unparseable-target", "misfit-target", "rewrite-error-target", "missing-path", "multi-file-fault-on-non-first", "fault-pair", "sticky-write-fault"},
 	}
 }
 
@@ -79,6 +79,8 @@ func (c16) Gen(env *Env, seed uint64, tier string, i int) *Case {
 		dir := ""
 		if r.Chance(1, 3) {
 			dir = r.Pick([]string{"pkg/", "internal/x/"})
+		} else if r.Chance(1, 6) {
+			dir = OddDir(r)
 		}
 		roll := r.Intn(100)
 		switch {
@@ -135,12 +137,40 @@ func (c16) Gen(env *Env, seed uint64, tier string, i int) *Case {
 // c16Inputs turns the world into one with a per-file or per-path input
 // failure at a random position.
 func c16Inputs(c *Case, r *world.PRNG) {
-	kind := r.Pick([]string{"misfit", "missing-path", "unreadable-patch", "unreadable-target", "missing-list-member", "unparseable", "unparseable-patch", "dir-unreadable"})
+	kind := r.Pick([]string{"misfit", "missing-path", "unreadable-patch", "unreadable-target", "missing-list-member", "unparseable", "unparseable-patch", "dir-unreadable", "rewrite-error", "rewrite-error"})
 	c.Extra["input_failure"] = kind
 	switch kind {
 	case "unparseable":
-		c.AddFile(fmt.Sprintf("%sbadx.go", r.Pick([]string{"", "a/", "zz/"})), UnparseableFile(r), "unparseable", nil, "")
+		c.AddFile(fmt.Sprintf("%sbadx.go", r.Pick([]string{"", "a/", "zz/", OddDir(r)})), UnparseableFile(r), "unparseable", nil, "")
 		c.Targets = []string{"."}
+	case "rewrite-error":
+		// one file is matched by a change that rewrites fine AND by a change whose
+		// replacement does not fit (in either order, in one patch file or two)
+		good := "@@\n@@\n-vfGoodOld\n+vfGoodNew\n"
+		ill := "@@\nvar f expression\n@@\n-f(vfIll)\n+f.f(vfIll)\n"
+		for i := range c.Patches {
+			if c.Patches[i].Via == "stdin" {
+				c.Patches[i].Via = "p"
+				c.Patches[i].Path = PatDir + "/p0.patch"
+				c.SetNode(world.NodeSpec{Path: c.Patches[i].Path, Kind: "file", Data: c.Patches[i].Data})
+			}
+		}
+		via := c.Patches[0].Via
+		switch r.Intn(4) {
+		case 0:
+			c.AddPatch("two.patch", via, []byte(good+"\n"+ill), nil, nil)
+		case 1:
+			c.AddPatch("two.patch", via, []byte(ill+"\n"+good), nil, nil)
+		case 2:
+			c.AddPatch("good.patch", via, []byte(good), nil, nil)
+			c.AddPatch("ill.patch", via, []byte(ill), nil, nil)
+		default:
+			c.AddPatch("ill.patch", via, []byte(ill), nil, nil)
+			c.AddPatch("good.patch", via, []byte(good), nil, nil)
+		}
+		src := "package sample\n\nfunc rewr() {\n\tvfGoodOld()\n\tc.conn.Close(vfIll)\n\tvfGoodOld(3)\n}\n"
+		p := c.AddFile(fmt.Sprintf("%srewr.go", r.Pick([]string{"", "a/", "zz/", OddDir(r)})), []byte(src), "rewrite-error", nil, "")
+		c.Targets = append(c.Targets, strings.TrimPrefix(p, ProjDir+"/"))
 	case "misfit":
 		m := Misfits[r.Intn(len(Misfits))]
 		k := 40 + r.Intn(5)
@@ -411,7 +441,8 @@ func c16Judge(env *Env, c *Case, init []world.FileState, pilot, r *RunResult, cl
 	add := func(oracle, sig, detail string) {
 		vs = append(vs, Violation{Oracle: oracle, Signature: "C16/" + oracle + "/" + sig, Detail: detail})
 	}
-	if r.Outcome == OutCrash || r.Outcome == OutNoProgress {
+	crashed := r.Outcome == OutCrash || r.Outcome == OutNoProgress
+	if crashed {
 		env.Probe("faulty-run-crashed")
 		// a crash under an injected fault still must not tear files; fall through
 	}
@@ -419,6 +450,13 @@ func c16Judge(env *Env, c *Case, init []world.FileState, pilot, r *RunResult, cl
 		return nil
 	}
 	first := r.Fired[0]
+	if crashed && pilot.Outcome == OutExit {
+		what := NormalizePanic(r.Panic) + "@" + InnermostRepoFunc(r.Stack)
+		if r.Outcome == OutNoProgress {
+			what = "no-progress@" + r.Spin
+		}
+		add("crash-under-fault", what, fmt.Sprintf("an injected %s on %s %s (%s) made gopatch crash instead of reporting the failure: %s\n%s", first.Fault, first.Name, first.Path, first.Err, r.Panic, clip(r.Stack, 1200)))
+	}
 	wroteH := wroteHandles(r.Log)
 	isPair := strings.HasPrefix(class, "pair:")
 	if !isPair {
@@ -651,6 +689,8 @@ func c16EvalInputs(env *Env, c *Case) []Violation {
 		return nil
 	}
 	switch kind {
+	case "rewrite-error":
+		env.Probe("rewrite-error-target")
 	case "unparseable":
 		env.Probe("unparseable-target")
 	case "misfit":
@@ -665,16 +705,19 @@ func c16EvalInputs(env *Env, c *Case) []Violation {
 	}
 	// which path must be named, and with which cause
 	switch kind {
-	case "unparseable", "misfit":
+	case "unparseable", "misfit", "rewrite-error":
 		for _, f := range c.Files {
-			if f.Role != "unparseable" && f.Role != "misfit" {
+			if f.Role != "unparseable" && f.Role != "misfit" && f.Role != "rewrite-error" {
 				continue
 			}
 			if !namesPath(c, stderr, f.Path) {
 				add("reported", "path-missing", fmt.Sprintf("%s file %s is not named on stderr: %q", f.Role, f.Path, clip(stderr, 400)))
 			}
-			if !reLineCol.MatchString(stderr) {
+			if f.Role != "rewrite-error" && !reLineCol.MatchString(stderr) {
 				add("reported", "cause-missing", fmt.Sprintf("no line:column diagnostic for %s file %s: %q", f.Role, f.Path, clip(stderr, 400)))
+			}
+			if strings.Contains(stderr, "%!") {
+				add("reported", "garbled", fmt.Sprintf("the diagnostic for %s is garbled: %q", f.Path, clip(stderr, 400)))
 			}
 		}
 	case "missing-path":
@@ -707,9 +750,9 @@ func c16EvalInputs(env *Env, c *Case) []Violation {
 	// same world without the failing element
 	ref := c.Clone()
 	switch kind {
-	case "unparseable", "misfit":
+	case "unparseable", "misfit", "rewrite-error":
 		for _, f := range c.Files {
-			if f.Role == "unparseable" || f.Role == "misfit" {
+			if f.Role == "unparseable" || f.Role == "misfit" || f.Role == "rewrite-error" {
 				ref.DropFile(f.Path)
 			}
 		}
@@ -756,7 +799,7 @@ func c16EvalInputs(env *Env, c *Case) []Violation {
 	}
 	// failing files themselves stay untouched
 	for _, f := range c.Files {
-		if f.Role == "unparseable" || f.Role == "misfit" || f.Role == "unreadable" {
+		if f.Role == "unparseable" || f.Role == "misfit" || f.Role == "unreadable" || f.Role == "rewrite-error" {
 			if g, ok := got[f.Path]; !ok || !bytes.Equal(g.Data, orig[f.Path].Data) {
 				add("all-or-nothing", "failing-file-modified", fmt.Sprintf("%s file %s was modified", f.Role, f.Path))
 			}
